@@ -110,6 +110,9 @@ func descOf(name string) *Desc {
 	sch, err := schema.Parse(reflect.New(t).Interface(), &sync.Map{}, schema.NamingStrategy{})
 	lib.Must(err)
 	d := &Desc{Type: name, Table: sch.Table, Tree: treeOf(t), sch: sch, t: t}
+	if isGen(name) {
+		d.Table = name // unnamed struct type: every call goes through Table(name)
+	}
 	if sch.PrioritizedPrimaryField != nil {
 		d.Prio = sch.PrioritizedPrimaryField.DBName
 		d.PrioHasDef = sch.PrioritizedPrimaryField.HasDefaultValue
